@@ -37,7 +37,9 @@ damped normal equations `IsStep` via `C10DeepLM.solveExact_of_nonsingular` / `da
 NOT DONE: C17 `binom_coeff_alt`.
 
 TRUSTED LINK as in `Props/RoundingLU.lean`.  Bare model.
-Non-vacuity: `namespace Examples`, `Examples2`, `LM.Examples` at the end.
+Non-vacuity: `namespace Examples`, `Examples2`, `LM.Examples` at the end; `namespace Examples3` is a complete scoring
+step evaluated in the 1 % model (`u = 1/100 > 0`) whose nonzero step is absorbed (`β ⊖ δ̂ = β`, `δ̂ = (1,2)`).
+`scoringStep_system` and `scoring_fixed_point` are stated for `p ≥ 2` coefficients (`hp`); `p = 1` is not covered.
 -/
 set_option linter.unusedSectionVars false
 set_option linter.unusedVariables false
@@ -46,7 +48,9 @@ open Cv Cv.FlModel Cv.LA Cv.LA.Lu Cv.Rounding Cv.FactorRounding Cv.RoundingLU Cv
 
 variable {M : FlModel} [FlSqrt M]
 
-/-- **one scoring step as a perturbed weighted normal system** (see the file header) -/
+/-- **one scoring step as a perturbed weighted normal system** (see the file header).  Stated for `p ≥ 2`
+coefficients (`hp`: the backward-error theorem of the solver, `solve_backward_W`, needs order `≥ 2`); the
+one-coefficient case is not covered. -/
 theorem scoringStep_system (x y w coef mu dmu var : List (Fl M)) (alpha : Fl M) (n p : Nat)
     (hn : 0 < n) (hp : 2 ≤ p) (hx : x.length = n * p) (hy : y.length = n) (hmu : mu.length = n)
     (hdm : dmu.length = n) (hv : var.length = n) (hw : w.length = n)
@@ -225,7 +229,10 @@ theorem step_small (β s : Fl M) (h : β - s = β) : |s.val| ≤ M.γ 1 * |β.va
 point (`β ⊖ δ̂ = β`), then `|δ̂_b| ≤ γ₁|β_b|` and the penalised score built from the computed working residuals
 satisfies, with `E`, `e` bounded exactly as in `scoringStep_system`,
 
-  `|(−Xᵀr̂ + α_e·P₁β)[a]| ≤ γ₁·Σ_b (|(XᵀŴX + α_e·I)[a,b]| + |E[a,b]|)·|β_b| + |e[a]|`. -/
+  `|(−Xᵀr̂ + α_e·P₁β)[a]| ≤ γ₁·Σ_b (|(XᵀŴX + α_e·I)[a,b]| + |E[a,b]|)·|β_b| + |e[a]|`.
+
+Stated for `p ≥ 2` coefficients (`hp`); `p = 1` is not covered.  `Examples3` below runs it with `u = 1/100` on a
+step `δ̂ ≠ 0` that is absorbed. -/
 theorem scoring_fixed_point (x y w coef mu dmu var : List (Fl M)) (alpha : Fl M) (n p : Nat)
     (hn : 0 < n) (hp : 2 ≤ p) (hx : x.length = n * p) (hy : y.length = n) (hmu : mu.length = n)
     (hdm : dmu.length = n) (hv : var.length = n) (hw : w.length = n) (hcl : coef.length = p)
@@ -762,6 +769,204 @@ example : |(invLinkF Family.bernoulli (⟨1⟩ : Fl Minf)).val - sigma 1| ≤
 end link
 
 end Cv.Rounding7.Examples2
+
+/-! ### Non-vacuity with `u > 0`: a complete scoring step in the 1 % model whose nonzero step is absorbed
+
+Gaussian-type data on the identity design (`n = p = 2`): every operation inflates by 1 %, all computed quantities
+are evaluated exactly (`ŵ`, `r̂`, `ĝ`, `Ĥ = (400/101)·I`, Cholesky factor `2.02·I`, both triangular solves), the
+step is `δ̂ = (1, 2)` and `β ⊖ δ̂ = 1.01·(β − δ̂) = β` at `β = (101, 202)`; `μ = η̂` is the computed linear
+predictor at that `β` (`etaIv`). -/
+
+namespace Cv.Rounding7.Examples3
+open Cv Cv.FlModel Cv.LA Cv.LA.Lu Cv.Rounding Cv.FactorRounding Cv.RoundingLU Cv.Rounding3 Cv.Rounding6 Cv.Glm Finset
+open Cv.RoundingLU.Examples
+
+noncomputable abbrev Xi : List (Fl Minf) := [⟨1⟩, ⟨0⟩, ⟨0⟩, ⟨1⟩]
+noncomputable abbrev wI : List (Fl Minf) := [⟨4 * 100 ^ 8 / 101 ^ 8⟩, ⟨4 * 100 ^ 7 / 101 ^ 7⟩]
+noncomputable abbrev oI : List (Fl Minf) := [⟨1⟩, ⟨1⟩]
+noncomputable abbrev muI : List (Fl Minf) := [⟨101 ^ 4 / 100 ^ 3⟩, ⟨2 * 101 ^ 3 / 100 ^ 2⟩]
+noncomputable abbrev yI : List (Fl Minf) := [⟨101 ^ 4 / 100 ^ 3 - 100 / 101⟩, ⟨2 * 101 ^ 3 / 100 ^ 2 - 200 / 101⟩]
+noncomputable abbrev bI : List (Fl Minf) := [⟨101⟩, ⟨202⟩]
+noncomputable abbrev sI : List (Fl Minf) := [⟨1⟩, ⟨2⟩]
+noncomputable abbrev HI : List (Fl Minf) := [⟨400 / 101⟩, ⟨0⟩, ⟨0⟩, ⟨400 / 101⟩]
+noncomputable abbrev gI : List (Fl Minf) := [⟨40000 / 10201⟩, ⟨80000 / 10201⟩]
+
+theorem wwI : workingWeights oI oI wI = some [⟨4 * 100 ^ 5 / 101 ^ 5⟩, ⟨4 * 100 ^ 4 / 101 ^ 4⟩] := by
+  unfold workingWeights
+  rw [C06L.vbin_eq _ oI oI rfl]
+  simp only [Option.bind_eq_bind, Option.bind_some]
+  rw [C06L.vbin_eq _ wI _ (by simp)]
+  simp only [Option.bind_some]
+  rw [C06L.vbin_eq _ _ oI (by simp)]
+  simp only [List.zipWith_cons_cons, List.zipWith_nil_right, mk_mul, mk_div, Minf_rnd, Option.some.injEq,
+    List.cons.injEq, and_true, Fl.mk.injEq]
+  constructor <;> norm_num
+
+theorem rI : workingResiduals yI muI oI oI wI = some [⟨-4 * 100 ^ 5 / 101 ^ 5⟩, ⟨-8 * 100 ^ 4 / 101 ^ 4⟩] := by
+  unfold workingResiduals
+  rw [C06L.vbin_eq _ yI muI rfl]
+  simp only [Option.bind_eq_bind, Option.bind_some]
+  rw [C06L.vbin_eq _ wI _ (by simp)]
+  simp only [Option.bind_some]
+  rw [C06L.vbin_eq _ oI oI rfl]
+  simp only [Option.bind_some]
+  rw [C06L.vbin_eq _ _ _ (by simp)]
+  simp only [List.zipWith_cons_cons, List.zipWith_nil_right, mk_mul, mk_div, mk_sub, Minf_rnd, Option.some.injEq,
+    List.cons.injEq, and_true, Fl.mk.injEq]
+  constructor <;> norm_num
+
+theorem gIv : computeDbeta Xi yI muI oI oI wI = some gI := by
+  simp only [computeDbeta, show yI.length = 2 from rfl, C05L.isMatrix_of_len (show Xi.length = 2 * 2 from rfl) (by norm_num),
+    rI, Option.bind_eq_bind, Option.bind_some, Option.pure_def]
+  simp only [dbetaCell, List.range_succ, List.range_zero, List.nil_append, List.cons_append, List.map_cons, List.map_nil,
+    List.foldl_cons, List.foldl_nil]
+  simp
+  constructor <;> (apply Fl.ext; simp only [Fl.sub_val, Fl.mul_val, Fl.zero_val, Minf_rnd]; norm_num)
+
+theorem wxI : weightedX Xi [⟨4 * 100 ^ 5 / 101 ^ 5⟩, ⟨4 * 100 ^ 4 / 101 ^ 4⟩] 2 =
+    ([⟨4 * 100 ^ 4 / 101 ^ 4⟩, ⟨0⟩, ⟨0⟩, ⟨4 * 100 ^ 3 / 101 ^ 3⟩] : List (Fl Minf)) := by
+  simp only [weightedX, show Xi.length = 4 from rfl, List.range_succ, List.range_zero, List.nil_append, List.cons_append,
+    List.map_cons, List.map_nil]
+  simp
+  refine ⟨?_, ?_, ?_, ?_⟩ <;> (apply Fl.ext; simp only [Fl.mul_val, Minf_rnd]; norm_num)
+
+theorem ext4 (H : List (Fl Minf)) (a b c d : ℝ) (hl : H.length = 2 * 2) (h00 : (H[0]!).val = a) (h01 : (H[1]!).val = b)
+    (h10 : (H[2]!).val = c) (h11 : (H[3]!).val = d) : H = [⟨a⟩, ⟨b⟩, ⟨c⟩, ⟨d⟩] := by
+  rcases H with _ | ⟨g0, _ | ⟨g1, _ | ⟨g2, _ | ⟨g3, _ | _⟩⟩⟩⟩ <;> simp at hl
+  simp at h00 h01 h10 h11
+  simp only [List.cons.injEq, and_true]
+  exact ⟨Fl.ext h00, Fl.ext h01, Fl.ext h10, Fl.ext h11⟩
+
+theorem HIv : computeDdbeta Xi oI oI wI = some HI := by
+  simp only [computeDdbeta, show oI.length = 2 from rfl, C05L.isMatrix_of_len (show Xi.length = 2 * 2 from rfl) (by norm_num),
+    wwI, Option.bind_eq_bind, Option.bind_some, wxI]
+  obtain ⟨c, h1, h2, h3⟩ := C05L.matmul_entry Xi ([⟨4 * 100 ^ 4 / 101 ^ 4⟩, ⟨0⟩, ⟨0⟩, ⟨4 * 100 ^ 3 / 101 ^ 3⟩] : List (Fl Minf))
+    2 2 2 2 true false rfl rfl (by norm_num) (by norm_num) rfl
+  rw [h1]
+  have e00 := h3 0 0 (by norm_num) (by norm_num)
+  have e01 := h3 0 1 (by norm_num) (by norm_num)
+  have e10 := h3 1 0 (by norm_num) (by norm_num)
+  have e11 := h3 1 1 (by norm_num) (by norm_num)
+  simp [C05L.cellFold, C05L.opEntry, List.range_succ] at e00 e01 e10 e11
+  congr 1
+  refine ext4 c _ _ _ _ (by simpa using h2) (by simp; rw [e00]; simp [Minf_rnd]; norm_num) (by simp; rw [e01]; simp [Minf_rnd])
+    (by simp; rw [e10]; simp [Minf_rnd]) (by simp; rw [e11]; simp [Minf_rnd]; norm_num)
+
+noncomputable abbrev LI : List (Fl Minf) := [⟨101 / 50⟩, ⟨0⟩, ⟨0⟩, ⟨101 / 50⟩]
+
+theorem bigE : (4503599627370496 : Fl Minf).val = 4503599627370496 * (1 + 1 / 100) := by
+  show Minf.rnd ((4503599627370496 : ℕ) : ℝ) = _
+  rw [Minf_rnd]; norm_num
+
+theorem sqrt_mk (a : ℝ) : Transc.sqrt (⟨a⟩ : Fl Minf) = ⟨Real.sqrt a * (1 + 1 / 100)⟩ := rfl
+theorem zero_mk : (0 : Fl Minf) = ⟨0⟩ := rfl
+theorem isM42 : LA.isMatrix 4 2 = some 2 := by decide
+
+theorem HI_pred : routePredicate HI = some true := by
+  unfold routePredicate isPositiveDefinite isSymmetric isExactlySymmetric
+  simp only [show HI.length = 2 * 2 from rfl, isSquare_sq]
+  norm_num [List.range_succ, List.range', rd, eps, Fl.lt_def, Fl.le_def, Minf_rnd, bigE]
+
+theorem HI_chol : tryCholesky HI = some (some LI) := by
+  have hE : ¬ (4503599627370496 : Fl Minf).val < 0 := by rw [bigE]; norm_num
+  unfold tryCholesky isSymmetric
+  simp only [show HI.length = 2 * 2 from rfl, isSquare_sq]
+  norm_num [cholLoops, cholRow, List.range_succ, List.foldlM_cons, List.foldlM_nil, cholCell, List.replicate,
+    Fl.isNan_false, Fl.le_def, Fl.lt_def, rd, dot8, dot8Go, Minf_rnd, List.set, List.take, List.drop,
+    sqrtR_def, sqrt4, eps, List.range', ev, hE]
+  simp only [zero_mk, mk_sub, mk_div, mk_mul, mk_add, sqrt_mk, Minf_rnd, Fl.mk.injEq]
+  have e4 : ((400 : ℝ) / 101 - 0) * (1 + 1 / 100) = 4 := by norm_num
+  norm_num [e4, sqrt4]
+
+theorem LI_t : LA.transpose LI 2 = some LI := by
+  unfold LA.transpose
+  simp only [show LI.length = 4 from rfl, isM42, Option.bind_eq_bind, Option.bind_some, Option.pure_def]
+  norm_num [List.range_succ, rd]
+
+theorem LI_fwd : forwardSubstitution LI gI = some [⟨200 / 101⟩, ⟨400 / 101⟩] := by
+  unfold forwardSubstitution
+  simp only [show LI.length = 2 * 2 from rfl, isSquare_sq, Option.bind_eq_bind, Option.bind_some, Option.pure_def]
+  norm_num [List.range_succ, rd, dot8, dot8Go, List.take, List.drop]
+  simp only [zero_mk, mk_sub, mk_div, mk_mul, mk_add, Minf_rnd, Fl.mk.injEq]
+  constructor <;> norm_num
+
+theorem LI_bwd : backwardSubstitution LI [⟨200 / 101⟩, ⟨400 / 101⟩] = some sI := by
+  unfold backwardSubstitution
+  simp only [show LI.length = 2 * 2 from rfl, isSquare_sq, Option.bind_eq_bind, Option.bind_some, Option.pure_def]
+  norm_num [List.range_succ, rd, dot8, dot8Go, List.take, List.drop]
+  simp only [zero_mk, mk_sub, mk_div, mk_mul, mk_add, Minf_rnd, Fl.mk.injEq]
+  constructor <;> norm_num
+
+theorem LI_solve : choleskySolve LI gI = some sI := by
+  unfold choleskySolve
+  simp only [show LI.length = 2 * 2 from rfl, isSquare_sq, Option.bind_eq_bind, Option.bind_some, LI_fwd, LI_t, LI_bwd]
+  simp
+
+theorem HI_solve : solve HI gI = some sI := by
+  unfold solve
+  simp [route, HI_pred, HI_chol, solveWith, LI_solve]
+
+theorem ext2 (H : List (Fl Minf)) (a b : ℝ) (hl : H.length = 2) (h0 : (H[0]!).val = a) (h1 : (H[1]!).val = b) :
+    H = [⟨a⟩, ⟨b⟩] := by
+  rcases H with _ | ⟨g0, _ | ⟨g1, _ | _⟩⟩ <;> simp at hl
+  simp at h0 h1
+  simp only [List.cons.injEq, and_true]
+  exact ⟨Fl.ext h0, Fl.ext h1⟩
+
+/-- the computed linear predictor at `β = (101, 202)` -/
+theorem etaIv : linearPredictor Xi bI 2 2 none = some muI := by
+  obtain ⟨c, h1, h2, h3⟩ := C05L.matmul_entry Xi bI 2 2 2 1 false false rfl rfl (by norm_num) (by norm_num) rfl
+  simp only [linearPredictor, h1, Option.bind_eq_bind, Option.bind_some, Option.pure_def]
+  have e0 := h3 0 0 (by norm_num) (by norm_num)
+  have e1 := h3 1 0 (by norm_num) (by norm_num)
+  simp [C05L.cellFold, C05L.opEntry, List.range_succ] at e0 e1
+  congr 1
+  exact ext2 c _ _ (by simpa using h2) (by simp; rw [e0]; simp [Minf_rnd]; norm_num)
+    (by simp; rw [e1]; simp [Minf_rnd]; norm_num)
+
+/-- **a scoring step in a model with `u = 1/100 > 0` that leaves `β` unchanged although the step is not zero**:
+`δ̂ = (1, 2)`, `β = (101, 202)`, `β ⊖ δ̂ = 1.01·(β − δ̂) = β` -/
+theorem stepI : scoringStep solve Xi yI wI (⟨0⟩ : Fl Minf) 2 bI muI oI oI = some (sI, bI) := by
+  have hpen : penalised (⟨0⟩ : Fl Minf) 2 bI gI HI = (gI, HI) := by
+    unfold penalised
+    rw [if_neg (show ¬ (0 : Fl Minf) < ⟨0⟩ from lt_irrefl (0 : ℝ))]
+  unfold scoringStep
+  simp only [gIv, HIv, hpen, HI_solve, Option.bind_eq_bind, Option.bind_some]
+  rw [C06L.vbin_eq (· - ·) bI sI rfl]
+  simp only [List.zipWith_cons_cons, List.zipWith_nil_right, mk_sub, Minf_rnd, Option.pure_def, Option.bind_some,
+    Option.some.injEq, Prod.mk.injEq, List.cons.injEq, and_true, true_and, Fl.mk.injEq]
+  constructor <;> norm_num
+
+theorem routeI : route HI = some (some LI) := by simp [route, HI_pred, HI_chol]
+
+/-- the Newton solve runs on the Cholesky route, so the hypothesis on the LU pivots is void -/
+theorem hdI : ∀ g H, computeDbeta Xi yI muI oI oI wI = some g → computeDdbeta Xi oI oI wI = some H →
+    route (penalised (⟨0⟩ : Fl Minf) 2 bI g H).2 = some none →
+    ∀ f piv, lu (penalised (⟨0⟩ : Fl Minf) 2 bI g H).2 = some (f, piv) → ∀ k, k < 2 → ev 2 f k k ≠ 0 := by
+  intro g H _ hH hroute
+  have e1 : H = HI := Option.some.inj (hH.symm.trans HIv)
+  have : (penalised (⟨0⟩ : Fl Minf) 2 bI g H).2 = HI := by
+    unfold penalised
+    rw [if_neg (show ¬ (0 : Fl Minf) < ⟨0⟩ from lt_irrefl (0 : ℝ)), e1]
+  rw [this, routeI] at hroute
+  simp at hroute
+
+/-- `scoringStep_system` with every hypothesis discharged in the 1 % model (`u = 1/100`, `n = p = 2`): the whole
+conclusion holds for the run `stepI`, whose step `δ̂ = (1, 2)` is NOT zero -/
+example := scoringStep_system Xi yI wI bI muI oI oI (⟨0⟩ : Fl Minf) 2 2 (by norm_num) (le_refl 2) rfl rfl rfl rfl rfl
+  rfl sI bI stepI (by rw [Minf_u]; norm_num) (by rw [Minf_u]; norm_num) hdI
+
+/-- `scoring_fixed_point` likewise: `β ⊖ δ̂ = β` with `δ̂ ≠ 0` and `u > 0` -/
+example := scoring_fixed_point Xi yI wI bI muI oI oI (⟨0⟩ : Fl Minf) 2 2 (by norm_num) (le_refl 2) rfl rfl rfl rfl rfl
+  rfl rfl sI stepI (by rw [Minf_u]; norm_num) (by rw [Minf_u]; norm_num) hdI
+
+/-- the absorbed step is as large as `scoring_fixed_point` allows up to 1 %: `|δ̂_b| = |β_b|/101 ≤ γ₁·|β_b| = |β_b|/99` -/
+example : vv sI 0 = 1 ∧ vv sI 1 = 2 ∧ Minf.γ 1 * |vv bI 0| = 101 / 99 ∧ Minf.γ 1 * |vv bI 1| = 202 / 99 := by
+  unfold FlModel.γ
+  rw [Minf_u]
+  norm_num [vv, rd]
+
+end Cv.Rounding7.Examples3
 
 namespace Cv.Rounding7.LM.Examples
 open Finset
